@@ -45,6 +45,19 @@ def run(ctx):
     from rules.c09 import r91
     from rules.c05 import _Renamed
     r91(_Renamed(ctx, 'R8.8'), prog)
+    # R8.9 "all elements of a tuple or chain are evaluated": the evaluators walk the children the tree has, so every element written in
+    # the source has to be a child - the C05 rules on the separator branch of the tree builder (S5.1 every separator opens an element,
+    # S5.5 element conservation, S5.8 the separator's decision, S5.10 collapsing drops nothing), reported here: a builder that drops a
+    # "useless" element skips its evaluation, its errors and its effects
+    from rules import c05
+    from rules.common import safe_tables
+    r89 = _Renamed(ctx, 'R8.9')
+    T = safe_tables(r89, prog, 'R8.9')
+    if T is not None:
+        c05.s51(r89, prog)
+        c05.s55(r89, prog)
+        c05.s58(r89, prog, T)
+        c05.s510(r89, prog)
 
 
 class _BaseCallOnly:
